@@ -131,6 +131,13 @@ def gen_one(world, tier, rng, faults=True):
       else:
         arg = f'({gen_literal(rng)!r})'
       pending.append(f'fiddler:{f}{arg}')
+    elif r < 0.58:
+      # the module's `fid_scale` attribute is rebound (same name, other code):
+      # directives parsed from here on mean the new function
+      if pending:
+        steps.append({'op': 'parse', 'ds': pending})
+        pending = []
+      steps.append({'op': 'rebind'})
     elif r < 0.75:
       if pending:
         steps.append({'op': 'parse', 'ds': pending})
@@ -273,6 +280,57 @@ def V(clause, msg, **extra):
   return {'fp': fp, 'msg': msg}
 
 
+def check_print_fault(cfg, probes, faults):
+  """A leaf's __repr__ raises while the configuration is being printed: the
+  printer may fail (loudly), but the configuration must be what it was, and
+  printing it afterwards must work as usual."""
+  import copy as _copy
+  c2 = _copy.deepcopy(cfg)
+  nodes = [v for v, _ in fdl.daglish.iterate(c2) if isinstance(v, fdl.Buildable)]
+  # a hostile leaf in the root and in the last nested Buildable that takes `x`
+  c2.z = stubmod.Hostile()
+  for node in reversed(nodes):
+    if node is not c2 and 'x' in node.__signature_info__.parameters and not isinstance(
+        getattr(node, 'x', None), fdl.Buildable):
+      try:
+        node.x = [stubmod.Hostile()]
+      except Exception:  # pylint: disable=broad-except
+        continue
+      break
+  before = C.canon(c2)
+  stubmod.Hostile.mode = 'exc'
+  fired0 = stubmod.Hostile.fired
+  try:
+    try:
+      printing.as_str_flattened(c2)
+    except Exception:  # pylint: disable=broad-except
+      pass
+    try:
+      str(printing.as_dict_flattened(c2))
+    except Exception:  # pylint: disable=broad-except
+      pass
+    try:
+      repr(c2)
+    except Exception:  # pylint: disable=broad-except
+      pass
+  finally:
+    stubmod.Hostile.mode = None
+  if stubmod.Hostile.fired > fired0:
+    faults['format_raises'] = faults.get('format_raises', 0) + 1
+  after = C.canon(c2)
+  if after != before:
+    return V('failed-print-modified-config',
+             'a __repr__ that raised while printing left the configuration changed: '
+             + '; '.join(C.diff(before, after)))
+  d = printing.as_dict_flattened(c2)
+  n_leaves, _ = count_leaves(c2)
+  if len(d) != n_leaves:
+    return V('printed-leaves-count',
+             f'after a failed print as_dict_flattened lists {len(d)} paths, the '
+             f'configuration has {n_leaves} leaves')
+  return None
+
+
 def check_printers(cfg, probes):
   """Printed paths: unique, complete, and each resolves to its leaf."""
   d = printing.as_dict_flattened(cfg)
@@ -375,6 +433,27 @@ def run(case):
     probes['two_flags'] = 1
   for idx, st in enumerate(case['steps']):
     res['steps'] += 1
+    if st['op'] == 'rebind':
+      # everything parsed so far is applied under the old binding first (lazy
+      # evaluation must not make an earlier directive mean the new function)
+      if any(isinstance(q, tuple) for fs_ in fss.values() for q in fs_.queue):
+        continue   # a failing directive is pending: no clean point to rebind at
+      ok = True
+      for fs_ in fss.values():
+        if fs_.queue:
+          try:
+            fs_.flag.value  # pylint: disable=pointless-statement
+          except Exception:  # pylint: disable=broad-except
+            ok = False
+            break
+          applied += len(fs_.queue)
+          del fs_.queue[:]
+      if not ok:
+        res['discarded'] = 'pending-directives-failed-before-rebind'
+        return res
+      stubmod.rebind_fid_scale()
+      bump(probes, 'fiddler_rebound')
+      continue
     fs = fss.setdefault(st.get('f', 0), FS())
     flag, model, queue = fs.flag, fs.model, fs.queue
     if st['op'] == 'parse':
@@ -497,6 +576,11 @@ def run(case):
       if v:
         viols.append(v)
         return res
+      if idx % 3 == 0:
+        v = check_print_fault(value, probes, faults)
+        if v:
+          viols.append(v)
+          return res
     if st['op'] == 'roundtrip' and value is not None:
       ser = serializer.serialize(value)   # ONE serializer for the whole run
       flag2 = new_flag()
